@@ -187,6 +187,13 @@ def instances(tier, seed):
                 for cons in ((None,) if q else (None, 'pure')):
                     out.append(Instance('mode-step/%s/%s/box%d/%s' % (kind, mode, S.BOX_POOL.index((lo, hi)), cons or 'nocons'),
                                         S.mode_step(kind, mode, lo, hi, cons, oblig)))
+    # a stopped run that is continued (Finalize, then Step): with strict ranges Nelder-Mead rebuilds its simplex on re-decoration
+    for cfg in ('plain', 'cons', 'box'):
+        out.append(Instance('nm-restart/%s/dim=1' % cfg, S.nm_step(cfg, 1, oblig, restart=True)))
+    out.append(Instance('nm-restart/box/dim=2', S.nm_step('box', 2, oblig, restart=True)))
+    if not q:
+        out.append(Instance('nm-restart/box+cons+pen/dim=1', S.nm_step('box+cons+pen', 1, oblig, restart=True)))
+        out.append(Instance('nm-restart/plain/dim=2', S.nm_step('plain', 2, oblig, restart=True)))
     # ensembles: the reduction kernel (reported pair = a best member's pair, also after the members progressed in step mode)
     from harness import c09
     for ek in ('lattice', 'buckshot'):
